@@ -352,6 +352,11 @@ class Lowering:
             return self._resolved(r, name) if r[0] != "ext" else ("ext", dotted)
         if op(base) == "tuple" and False:
             pass
+        if name == "delimiter" and op(base) == "call" and op(base[1]) == "cls" and base[1][1].endswith(".Converter"):
+            # Converter(.., delimiter=d).delimiter is d (the constructor keeps it as given)
+            d_ = dict(base[3]).get("delimiter")
+            if d_ is not None:
+                return d_
         prop = self.model_props().get(name)
         if prop is not None:
             return substitute(prop, {("param", "$self"): base})
@@ -543,6 +548,12 @@ class Lowering:
         if op(func) == "builtin" and fname == "zip" and len(args) == 2 and not kws and op(args[0]) == "call" and args[0][1] == ("ext", "itertools.count") and len(args[0][2]) <= 1 and not args[0][3] and op(args[1]) != "star":
             # zip(itertools.count(k), xs) yields the pairs of enumerate(xs, start=k)
             return ("call", ("builtin", "enumerate"), (args[1],), (("start", args[0][2][0]),) if args[0][2] else ())
+        if op(func) == "builtin" and fname in ("sorted", "min", "max") and any(k == "key" and is_const(v, None) for k, v in kws):
+            kws = tuple((k, v) for k, v in kws if not (k == "key" and is_const(v, None)))
+            return self.norm_call(("call", func, args, kws))
+        if op(func) == "builtin" and fname == "sorted" and any(k == "reverse" and is_const(v, False) for k, v in kws):
+            kws = tuple((k, v) for k, v in kws if not (k == "reverse" and is_const(v, False)))
+            return self.norm_call(("call", func, args, kws))
         if op(func) == "builtin" and fname == "sorted" and len(args) == 1 and op(args[0]) == "call" and args[0][1] == ("builtin", "sorted") and len(args[0][2]) == 1 and args[0][3] == kws:
             return args[0]  # sorting a list that was just sorted with the same key (the sort is stable and idempotent)
         if op(func) == "builtin" and fname in ("sorted", "set", "frozenset", "sum", "min", "max", "any", "all") and len(args) >= 1 and op(args[0]) == "call" and args[0][1] in (("builtin", "list"), ("builtin", "tuple")) and len(args[0][2]) == 1 and not args[0][3]:
@@ -729,6 +740,8 @@ class Lowering:
 
     @staticmethod
     def mk_not(x):
+        if is_const(x) and isinstance(x[1], bool):
+            return ("const", not x[1])
         if op(x) == "cmp" and x[1] in CMP_NEG:
             return ("cmp", CMP_NEG[x[1]], x[2], x[3])
         if op(x) == "not":
@@ -746,6 +759,20 @@ class Lowering:
                 parts.extend(t[1])
             else:
                 parts.append(t)
+        # a leading literal decides or drops out:  True and X == X,  False and X == False,  False or X == X,  True or X == True
+        while len(parts) > 1 and is_const(parts[0]) and isinstance(parts[0][1], bool):
+            if parts[0][1] == (kind == "and"):
+                parts.pop(0)
+            else:
+                return parts[0]
+        # ... and so does a trailing neutral literal after operands that are booleans themselves
+        def _boolean(t):
+            return op(t) in ("cmp", "not", "truth") or (op(t) == "call" and t[1] in (("builtin", "any"), ("builtin", "all"), ("builtin", "isinstance"), ("builtin", "bool"))) or (op(t) in ("and", "or") and all(_boolean(x) for x in t[1]))
+
+        while len(parts) > 1 and is_const(parts[-1]) and isinstance(parts[-1][1], bool) and parts[-1][1] == (kind == "and") and all(_boolean(x) for x in parts[:-1]):
+            parts.pop()
+        if len(parts) == 1:
+            return parts[0]
         return (kind, tuple(parts))
 
     def e_Compare(self, e, env):
